@@ -35,6 +35,7 @@ type Prog struct {
 	loadErrs   []string
 	fnByName   map[string]*ssa.Function
 	usedLemmas map[string]bool
+	macros     map[string]*Macro // "<pkgpath>:<name>"
 }
 
 func loadProg(repoDir string, patterns []string, tags string) (*Prog, error) {
@@ -85,6 +86,12 @@ func loadProg(repoDir string, patterns []string, tags string) (*Prog, error) {
 				P.contracts[path+":"+c.FnName] = c
 			}
 			P.lemmas = append(P.lemmas, cf.Lemmas...)
+			for _, m := range cf.Macros {
+				if P.macros == nil {
+					P.macros = map[string]*Macro{}
+				}
+				P.macros[path+":"+m.Name] = m
+			}
 		}
 	}
 	P.scanGlobals()
